@@ -22,7 +22,7 @@ pub struct A32;
 #[repr(align(64))]
 pub struct A64;
 
-pub trait LElem: Sized + Clone + Hash + Eq + 'static {
+pub trait LElem: Sized + Clone + Hash + Eq + std::fmt::Debug + 'static {
     const SIZE: usize;
     const ALIGN: usize;
     const TRACKED: bool;
@@ -85,6 +85,16 @@ impl<const N: usize, AL: Copy + 'static> LElem for PL<N, AL> {
     }
 }
 
+/// `Debug` is part of the safe API (`{:?}` of a collection, iterator or drain): formatting an element
+/// checks that the reference names a live, intact element.
+impl<const N: usize, AL: Copy + 'static> std::fmt::Debug for PL<N, AL> {
+    fn fmt(&self, f: &mut std::fmt::Formatter<'_>) -> std::fmt::Result {
+        if !self.verify() {
+            world::violation("C02", "debug-of-garbage", format!("Debug was handed a reference to a slot that fails the element self-check (id {})", self.id()));
+        }
+        write!(f, "P{}", self.id())
+    }
+}
 impl<const N: usize, AL: Copy + 'static> Hash for PL<N, AL> {
     fn hash<H: Hasher>(&self, h: &mut H) {
         h.write_u64(self.id());
@@ -152,6 +162,14 @@ impl<const N: usize, AL: Copy + 'static> LElem for TL<N, AL> {
     }
 }
 
+impl<const N: usize, AL: Copy + 'static> std::fmt::Debug for TL<N, AL> {
+    fn fmt(&self, f: &mut std::fmt::Formatter<'_>) -> std::fmt::Result {
+        if !self.verify() {
+            world::violation("C02", "debug-of-dead-element", format!("Debug was handed a reference to a slot that does not hold a live element (id {}, magic {:#x})", self.id(), self.magic32()));
+        }
+        write!(f, "T{}", self.id())
+    }
+}
 impl<const N: usize, AL: Copy> Drop for TL<N, AL> {
     fn drop(&mut self) {
         let m = self.magic32();
@@ -214,6 +232,11 @@ impl LElem for ZT {
     }
     fn name() -> String {
         "tracked(0,1)".to_string()
+    }
+}
+impl std::fmt::Debug for ZT {
+    fn fmt(&self, f: &mut std::fmt::Formatter<'_>) -> std::fmt::Result {
+        write!(f, "Z")
     }
 }
 impl Drop for ZT {
